@@ -62,7 +62,7 @@ def gen_startup(r, ncases):
     return ops
 
 
-DATA_QUANTS = [0, 0, 2, 3, 4, 8, 16, 32]
+DATA_QUANTS = [0, 0, 2, 3, 4, 8, 16, 32, 64, 100, 128, 200, 255, 256, 300]   # >= 128: two distinct targets; > 255: ONE (one-point curve)
 _STYLE_OUTPUTS = {"identity": [0, 64, 128, 192, 255], "plateau": [0, 64, 128, 255], "shifted": [10, 70, 130, 190, 250]}
 
 
